@@ -66,6 +66,7 @@ func verrevcmp(a, b string) int {
 }
 
 // dpkgSplit splits [epoch:]upstream[-revision]. ok=false when the epoch is not a number.
+//
 //verif:summarize
 func dpkgSplit(v string) (epoch int, upstream, revision string, ok bool) {
 	ok = true
@@ -95,6 +96,7 @@ func dpkgSplit(v string) (epoch int, upstream, revision string, ok bool) {
 }
 
 // DpkgCompare compares two Debian version strings; ok=false if one has a malformed epoch.
+//
 //verif:summarize
 func DpkgCompare(a, b string) (int, bool) {
 	ea, ua, ra, oka := dpkgSplit(a)
@@ -215,6 +217,7 @@ func RpmVerCmp(a, b string) int {
 }
 
 // RpmEVRCompare compares (epoch, version, release) triples the way rpm does.
+//
 //verif:summarize
 func RpmEVRCompare(e1 uint32, v1, r1 string, e2 uint32, v2, r2 string) int {
 	if e1 != e2 {
@@ -251,10 +254,12 @@ func HasByte(s string, c byte) bool {
 
 //verif:summarize
 func HasPrefix(s, p string) bool { return len(s) >= len(p) && s[:len(p)] == p }
+
 //verif:summarize
 func HasSuffix(s, p string) bool { return len(s) >= len(p) && s[len(s)-len(p):] == p }
 
 // Count returns the number of non-overlapping occurrences of sub (non-empty) in s.
+//
 //verif:summarize
 func Count(s, sub string) int {
 	n := 0
@@ -270,6 +275,7 @@ func Count(s, sub string) int {
 }
 
 // SemverIdent reports whether s is a non-empty run of [0-9A-Za-z-] identifiers separated by single dots.
+//
 //verif:summarize
 func SemverIdent(s string) bool {
 	if len(s) == 0 || s[0] == '.' || s[len(s)-1] == '.' {
